@@ -51,6 +51,17 @@ pub struct WmTrace {
 
 pub struct WatermarkWorld;
 
+/// Bounds are milliseconds in the trace; the three largest values stand for the ways of writing "no bound":
+/// `Duration::MAX`, `Duration::from_secs(1 << 61)` (more than 2^64 ms) and `Duration::from_millis(u64::MAX)`.
+/// The model needs no special case: every one of them is larger than any stamp.
+fn dur(ms: u64) -> Duration {
+    match ms {
+        u64::MAX => Duration::MAX,
+        x if x == u64::MAX - 1 => Duration::from_secs(1 << 61),
+        ms => Duration::from_millis(ms),
+    }
+}
+
 const CLOCK_BASE_MS: u64 = 1_700_000_000_000;
 
 fn mk_event(i: usize, ts: u64, src: u8) -> StreamEvent {
@@ -94,6 +105,7 @@ impl World for WatermarkWorld {
                 "fault.clock_stall",
                 "fault.reordered_arrival",
                 "probe.delay_or_lateness_bound_of_a_second_or_more",
+                "probe.delay_or_lateness_bound_that_means_unbounded",
                 "probe.stream_of_more_than_1024_arrivals",
                 "probe.events_of_two_sources",
                 "probe.timestamps_beyond_2_to_the_31",
@@ -197,6 +209,13 @@ impl World for WatermarkWorld {
             Late::Allowed(m) => Late::Allowed(m * scale + odd(rng)),
             l => l,
         };
+        // one run in 40: "no bound at all", written as Duration::MAX, as more than 2^64 ms or as u64::MAX ms
+        let (wm, late) = if rng.chance(1, 40) {
+            let huge = |rng: &mut Rng| *rng.pick(&[u64::MAX, u64::MAX - 1, u64::MAX - 2]);
+            (if let Wm::Bounded(_) = wm { Wm::Bounded(huge(rng)) } else { wm }, if let Late::Allowed(_) = late { Late::Allowed(huge(rng)) } else { late })
+        } else {
+            (wm, late)
+        };
         let arrivals: Vec<Arrival> = arrivals;
         // epoch offset (swarm): real streams carry epoch milliseconds (~1.7e12), not 0..40 — arithmetic that
         // is fine near zero may truncate or wrap beyond 2^31, 2^32 or 2^53
@@ -213,13 +232,13 @@ impl World for WatermarkWorld {
         clock::install(CLOCK_BASE_MS);
         clock::set_tick_pattern(t.tick_pattern.clone());
         let strat = match t.wm {
-            Wm::Bounded(d) => WatermarkStrategy::BoundedOutOfOrder { max_delay: Duration::from_millis(d) },
+            Wm::Bounded(d) => WatermarkStrategy::BoundedOutOfOrder { max_delay: dur(d) },
             Wm::Monotonic => WatermarkStrategy::MonotonicAscending,
             Wm::Periodic(i) => WatermarkStrategy::Periodic { interval: Duration::from_millis(i) },
         };
         let late = match t.late {
             Late::Drop => LateDataStrategy::Drop,
-            Late::Allowed(m) => LateDataStrategy::AllowedLateness { max_lateness: Duration::from_millis(m) },
+            Late::Allowed(m) => LateDataStrategy::AllowedLateness { max_lateness: dur(m) },
             Late::Side => LateDataStrategy::SideOutput,
             Late::Recompute => LateDataStrategy::RecomputeWindows,
         };
@@ -233,6 +252,9 @@ impl World for WatermarkWorld {
         }
         if t.arrivals.len() > 1024 {
             obs.count("probe.stream_of_more_than_1024_arrivals");
+        }
+        if matches!(t.wm, Wm::Bounded(d) if d >= u64::MAX - 2) || matches!(t.late, Late::Allowed(m) if m >= u64::MAX - 2) {
+            obs.count("probe.delay_or_lateness_bound_that_means_unbounded");
         }
         if matches!(t.wm, Wm::Bounded(d) if d >= 1000) || matches!(t.late, Late::Allowed(m) if m >= 1000) {
             obs.count("probe.delay_or_lateness_bound_of_a_second_or_more");
